@@ -17,12 +17,42 @@ Qed.
 Lemma many_abs l : out_abs (many l) = fmany (map snd l).
 Proof. destruct l; reflexivity. Qed.
 
-Lemma step_refines st o :
+Fixpoint f_run (f : fifo) (ops : list qop) : list (fout * fifo) :=
+  match ops with
+  | [] => []
+  | o :: ops' => let '(f', r) := f_step f o in (r, f') :: f_run f' ops'
+  end.
+
+Lemma map_removelast {A B} (f : A -> B) l : map f (removelast l) = removelast (map f l).
+Proof.
+  induction l as [|a l IH]; [reflexivity|]. destruct l as [|b l]; [reflexivity|].
+  cbn [removelast map] in *. rewrite IH. reflexivity.
+Qed.
+
+(* the tail entry, if any, carries lastId *)
+Definition tail_is_last (st : qstate) : Prop :=
+  match last_id (fst st) with Some i => i = snd st | None => True end.
+
+Lemma last_id_none q : last_id q = None -> q = [].
+Proof.
+  unfold last_id. destruct q as [|e q] using rev_ind; [reflexivity|].
+  rewrite rev_app_distr. cbn. destruct e. discriminate.
+Qed.
+
+Lemma droplast_tail st : tail_is_last st ->
+  q_droplast st = match fst st with [] => st | _ => (removelast (fst st), snd st - 1) end.
+Proof.
+  unfold tail_is_last, q_droplast. destruct (last_id (fst st)) as [i|] eqn:E.
+  - intros ->. rewrite Z.eqb_refl. destruct (fst st); [discriminate|reflexivity].
+  - intros _. rewrite (last_id_none _ E). reflexivity.
+Qed.
+
+Lemma step_refines st o : tail_is_last st ->
   q_abs (fst (fst (q_step st o))) = fst (f_step (q_abs (fst st)) o) /\
   out_abs (snd (q_step st o)) = snd (f_step (q_abs (fst st)) o).
 Proof.
-  destruct st as [q last].
-  destruct o as [s| |k| |k|]; cbn [q_step f_step fst snd].
+  intros Ht. destruct st as [q last].
+  destruct o as [s| |k| |k| |]; cbn [q_step f_step fst snd].
   - unfold q_push, q_abs. cbn [fst snd]. rewrite map_app. split; reflexivity.
   - destruct q as [|e q]; cbn; split; reflexivity.
   - unfold q_popn. cbn [fst snd]. rewrite many_abs, <- peekn_abs.
@@ -30,21 +60,8 @@ Proof.
   - destruct q as [|e q]; cbn; split; reflexivity.
   - cbn [fst snd]. rewrite many_abs, peekn_abs. split; reflexivity.
   - destruct q as [|e q]; cbn; split; reflexivity.
-Qed.
-
-Fixpoint f_run (f : fifo) (ops : list qop) : list (fout * fifo) :=
-  match ops with
-  | [] => []
-  | o :: ops' => let '(f', r) := f_step f o in (r, f') :: f_run f' ops'
-  end.
-
-Lemma run_refines ops : forall st,
-  map (fun rq => (out_abs (fst rq), q_abs (snd rq))) (q_run st ops) = f_run (q_abs (fst st)) ops.
-Proof.
-  induction ops as [|o ops IH]; intros st; [reflexivity|].
-  cbn [q_run f_run]. pose proof (step_refines st o) as [Hq Ho].
-  destruct (q_step st o) as [st' r]. destruct (f_step (q_abs (fst st)) o) as [f' r'].
-  cbn [fst snd] in *. cbn [map fst snd]. rewrite Ho, Hq, IH, Hq. reflexivity.
+  - rewrite (droplast_tail _ Ht). cbn [fst snd]. split; [|reflexivity].
+    destruct q as [|e q]; [reflexivity|]. cbn [fst]. unfold q_abs. apply map_removelast.
 Qed.
 
 (* peeks never modify the queue *)
@@ -126,14 +143,36 @@ Proof.
   destruct l as [|a l]; [exact H|]. cbn. apply IH. inversion H; assumption.
 Qed.
 
+Lemma sorted_removelast l : StronglySorted Z.lt l -> StronglySorted Z.lt (removelast l).
+Proof.
+  destruct l as [|a l] using rev_ind; intros Hs; [exact Hs|]. rewrite removelast_last.
+  clear IHl. induction l as [|b l IH]; [constructor|].
+  cbn in Hs. inversion Hs as [|? ? Hs' Hb]; subst. constructor; [apply IH; exact Hs'|].
+  apply Forall_app in Hb as [Hb _]. exact Hb.
+Qed.
+
+(* DropLast keeps the invariant: the entries left are below the one taken back, which carried lastId *)
+Lemma droplast_inv st : q_inv st -> q_inv (q_droplast st).
+Proof.
+  intros [Hs Hb]. unfold q_droplast. destruct (last_id (fst st)) as [i|] eqn:E; [|split; assumption].
+  destruct (i =? snd st) eqn:Ei; [|split; assumption]. apply Z.eqb_eq in Ei. subst i.
+  destruct st as [q last]. cbn [fst snd] in *. unfold q_inv, ids_sorted in *. cbn [fst snd].
+  destruct q as [|[a t] q] using rev_ind; [discriminate|]. clear IHq.
+  rewrite last_id_app in E. inversion E; subst a. rewrite removelast_last.
+  rewrite map_app in Hs. cbn [map fst] in Hs. split.
+  - apply sorted_removelast in Hs. rewrite removelast_last in Hs. exact Hs.
+  - eapply Forall_impl; [|apply sorted_snoc_lt; exact Hs]. cbn; intros; lia.
+Qed.
+
 Lemma step_inv st o : q_inv st -> q_inv (fst (q_step st o)).
 Proof.
-  intros H. destruct o as [s| |k| |k|]; cbn [q_step fst]; try exact H.
+  intros H. destruct o as [s| |k| |k| |]; cbn [q_step fst]; try exact H.
   - apply push_inv; exact H.
   - destruct H as [Hs Hb]. destruct st as [[|e q] last]; cbn; [split; assumption|].
     unfold q_inv, ids_sorted in *. cbn in *. inversion Hs; inversion Hb; subst. split; assumption.
   - destruct H as [Hs Hb]. unfold q_popn, q_inv, ids_sorted in *. cbn [fst snd].
     rewrite map_skipn. split; [apply sorted_skipn; exact Hs|apply Forall_skipn; exact Hb].
+  - apply droplast_inv; exact H.
 Qed.
 
 Lemma init_inv : q_inv q_init.
@@ -170,3 +209,271 @@ Proof.
   pose proof (last_id_in _ _ E) as Hin.
   rewrite Forall_forall in Hb. specialize (Hb i Hin). lia.
 Qed.
+
+Lemma exec_inv ops : forall st, q_inv st -> q_inv (q_exec st ops).
+Proof.
+  induction ops as [|o ops IH]; intros st H; [exact H|].
+  cbn [q_exec fold_left]. apply IH. apply step_inv. exact H.
+Qed.
+
+(* in every reachable state the next push gets lastId + 1 and becomes the tail entry *)
+Lemma numbering_continues ops s :
+  let st := q_exec q_init ops in
+  push_id st = snd st + 1 /\ q_push st s = (fst st ++ [(snd st + 1, s)], snd st + 1).
+Proof.
+  cbn zeta. pose proof (exec_inv ops _ init_inv) as H.
+  pose proof (push_id_init_inv _ H) as Hp. split; [exact Hp|]. unfold q_push. rewrite Hp. reflexivity.
+Qed.
+
+(* a push taken back at once leaves the queue object as it was: entries and next number *)
+Lemma droplast_push st s : q_inv st -> q_droplast (q_push st s) = st.
+Proof.
+  intros H. pose proof (push_id_init_inv _ H) as Hp.
+  unfold q_droplast, q_push. cbn [fst snd]. rewrite last_id_app, Z.eqb_refl, removelast_last, Hp.
+  destruct st as [q l]. cbn [fst snd]. f_equal. lia.
+Qed.
+
+Lemma droplast_undoes_push ops s :
+  let st := q_exec q_init ops in fst (q_step (fst (q_step st (QPush s))) QDropLast) = st.
+Proof. cbn zeta. cbn [q_step fst]. apply droplast_push. apply exec_inv. apply init_inv. Qed.
+
+(* ---- sequence numbers are positions in the log of payloads pushed and not taken back ---- *)
+
+Lemma numbered_app a l x :
+  numbered a (l ++ [x]) = numbered a l ++ [(a + Z.of_nat (length l), x)].
+Proof.
+  revert a; induction l as [|y l IH]; intros a; cbn [numbered app length].
+  - replace (a + Z.of_nat 0) with a by lia. reflexivity.
+  - rewrite IH. cbn [app]. replace (a + 1 + Z.of_nat (length l)) with (a + Z.of_nat (S (length l))) by lia. reflexivity.
+Qed.
+
+Lemma numbered_snd a l : map snd (numbered a l) = l.
+Proof. revert a; induction l as [|y l IH]; intros a; cbn; [reflexivity|]. rewrite IH. reflexivity. Qed.
+
+Lemma numbered_length a l : length (numbered a l) = length l.
+Proof. rewrite <- (map_length snd), numbered_snd. reflexivity. Qed.
+
+Lemma numbered_skipn n : forall a l, skipn n (numbered a l) = numbered (a + Z.of_nat n) (skipn n l).
+Proof.
+  induction n as [|n IH]; intros a l.
+  - cbn [skipn]. f_equal. lia.
+  - destruct l as [|x l]; [reflexivity|]. cbn [numbered skipn]. rewrite IH. f_equal. lia.
+Qed.
+
+Lemma numbered_removelast a l : removelast (numbered a l) = numbered a (removelast l).
+Proof.
+  destruct l as [|x l] using rev_ind; [reflexivity|].
+  rewrite numbered_app, !removelast_last. reflexivity.
+Qed.
+
+Lemma numbered_last_id a l :
+  last_id (numbered a l) = match l with [] => None | _ => Some (a + Z.of_nat (length l) - 1) end.
+Proof.
+  destruct l as [|x l] using rev_ind; [reflexivity|].
+  rewrite numbered_app, last_id_app, app_length. cbn [length].
+  destruct (l ++ [x]) eqn:E; [destruct l; discriminate|]. f_equal. lia.
+Qed.
+
+Lemma skipn_app_le' {A} n (l1 l2 : list A) : (n <= length l1)%nat -> skipn n (l1 ++ l2) = skipn n l1 ++ l2.
+Proof.
+  revert l1; induction n as [|n IH]; intros l1 H; [reflexivity|].
+  destruct l1 as [|x l1]; [cbn in H; lia|]. cbn. apply IH. cbn in H. lia.
+Qed.
+
+Lemma skipn_removelast {A} n (l : list A) : (n < length l)%nat -> skipn n (removelast l) = removelast (skipn n l).
+Proof.
+  destruct l as [|x l] using rev_ind; [cbn; lia|]. clear IHl. rewrite app_length. cbn [length]. intros H.
+  rewrite removelast_last, skipn_app_le' by lia.
+  destruct (Nat.eq_dec n (length l)) as [->|Hn].
+  - rewrite skipn_all. reflexivity.
+  - rewrite removelast_app by discriminate. cbn [removelast]. rewrite app_nil_r. reflexivity.
+Qed.
+
+Lemma skipn_skipn_add {A} n m (l : list A) : skipn n (skipn m l) = skipn (m + n) l.
+Proof.
+  revert l; induction m as [|m IH]; intros l; [reflexivity|].
+  destruct l as [|x l]; [destruct n; reflexivity|]. cbn. apply IH.
+Qed.
+
+Lemma f_take_length f k : (length (f_take f k) <= length f)%nat.
+Proof. unfold f_take. destruct (k <=? 0); [cbn; lia|]. rewrite firstn_length. lia. Qed.
+
+Record L (st : qstate) (s : nlog) : Prop := {
+  L_items : fst st = numbered (Z.of_nat (snd s) + 1) (skipn (snd s) (fst s));
+  L_last : snd st = Z.of_nat (length (fst s));
+  L_le : (snd s <= length (fst s))%nat }.
+
+Lemma L_abs st s : L st s -> q_abs (fst st) = skipn (snd s) (fst s).
+Proof. intros H. unfold q_abs. rewrite (L_items _ _ H). apply numbered_snd. Qed.
+
+Lemma L_tail st s : L st s -> tail_is_last st.
+Proof.
+  intros H. unfold tail_is_last. rewrite (L_items _ _ H), numbered_last_id, (L_last _ _ H).
+  pose proof (L_le _ _ H) as Hle.
+  destruct (skipn (snd s) (fst s)) eqn:E; [exact I|].
+  rewrite <- E, skipn_length. assert ((snd s < length (fst s))%nat).
+  { destruct (Nat.eq_dec (snd s) (length (fst s))) as [He|]; [|lia]. rewrite He, skipn_all in E. discriminate. }
+  lia.
+Qed.
+
+Lemma L_inv st s : L st s -> q_inv st.
+Proof.
+  intros H. pose proof (L_le _ _ H) as Hle. unfold q_inv, ids_sorted. rewrite (L_items _ _ H), (L_last _ _ H).
+  assert (G : forall l a, StronglySorted Z.lt (map fst (numbered a l)) /\
+                          Forall (fun y => a <= y <= a + Z.of_nat (length l) - 1) (map fst (numbered a l))).
+  { induction l as [|x l IH]; intros a; cbn [numbered map fst length]; [split; constructor|].
+    destruct (IH (a + 1)) as [I1 I2]. split.
+    - constructor; [exact I1|]. eapply Forall_impl; [|exact I2]. cbn; intros; lia.
+    - constructor; [lia|]. eapply Forall_impl; [|exact I2]. cbn; intros; lia. }
+  destruct (G (skipn (snd s) (fst s)) (Z.of_nat (snd s) + 1)) as [G1 G2]. split; [exact G1|].
+  eapply Forall_impl; [|exact G2]. cbn. rewrite skipn_length. intros; lia.
+Qed.
+
+Lemma init_L : L q_init l_init.
+Proof. constructor; cbn; auto. Qed.
+
+Lemma step_L st s o : L st s -> L (fst (q_step st o)) (l_step s o).
+Proof.
+  intros H. pose proof (L_items _ _ H) as Hi. pose proof (L_last _ _ H) as Hl. pose proof (L_le _ _ H) as Hle.
+  pose proof (L_tail _ _ H) as Ht. pose proof (L_inv _ _ H) as Hq.
+  destruct s as [lg p]. destruct st as [q last]. cbn [fst snd] in *.
+  destruct o as [x| |k| |k| |]; cbn [q_step l_step fst snd]; try exact H.
+  - (* push *)
+    unfold q_push. rewrite (push_id_init_inv _ Hq). cbn [fst snd].
+    constructor; cbn [fst snd].
+    + rewrite skipn_app_le' by exact Hle. rewrite numbered_app, <- Hi, skipn_length.
+      replace (Z.of_nat p + 1 + Z.of_nat (length lg - p)) with (last + 1) by lia. reflexivity.
+    + rewrite app_length. cbn [length]. lia.
+    + rewrite app_length. lia.
+  - (* pop *)
+    destruct (p <? length lg)%nat eqn:C.
+    + apply Nat.ltb_lt in C. destruct (skipn p lg) as [|x r] eqn:E.
+      { pose proof (skipn_length p lg) as Hk. rewrite E in Hk. cbn in Hk. lia. }
+      subst q. cbn [numbered q_pop]. constructor; cbn [fst snd]; [|exact Hl|lia].
+      replace (skipn (S p) lg) with r.
+      { f_equal. lia. }
+      change (S p) with (1 + p)%nat. rewrite Nat.add_comm, <- skipn_skipn_add, E. reflexivity.
+    + apply Nat.ltb_ge in C. assert (p = length lg) by lia. subst p.
+      rewrite skipn_all in Hi. subst q. cbn. constructor; cbn [fst snd]; [rewrite skipn_all; reflexivity|exact Hl|lia].
+  - (* pop n *)
+    unfold q_popn. cbn [fst snd].
+    assert (Hr : length (q_peekn q k) = length (f_take (skipn p lg) k)).
+    { rewrite <- (map_length snd), peekn_abs. unfold q_abs. rewrite Hi, numbered_snd. reflexivity. }
+    rewrite Hr. pose proof (f_take_length (skipn p lg) k) as Hk. rewrite skipn_length in Hk.
+    constructor; cbn [fst snd]; [|exact Hl|lia].
+    rewrite Hi, numbered_skipn, skipn_skipn_add. f_equal. lia.
+  - (* drop last *)
+    rewrite (droplast_tail _ Ht). cbn [fst snd].
+    destruct (p <? length lg)%nat eqn:C.
+    + apply Nat.ltb_lt in C. destruct q as [|e q'] eqn:Eq.
+      { pose proof (numbered_length (Z.of_nat p + 1) (skipn p lg)) as Hn. rewrite <- Hi, skipn_length in Hn. cbn in Hn. lia. }
+      rewrite <- Eq in *. assert (Hlen : length (removelast lg) = (length lg - 1)%nat).
+      { destruct lg as [|y lg] using rev_ind; [cbn in C; lia|]. rewrite removelast_last, app_length. cbn. lia. }
+      constructor; cbn [fst snd].
+      * rewrite Hi, numbered_removelast, skipn_removelast by exact C. reflexivity.
+      * rewrite Hlen. lia.
+      * rewrite Hlen. lia.
+    + apply Nat.ltb_ge in C. assert (p = length lg) by lia. subst p.
+      rewrite skipn_all in Hi. subst q. exact H.
+Qed.
+
+Lemma exec_L ops : forall st s, L st s -> L (q_exec st ops) (l_exec s ops).
+Proof.
+  induction ops as [|o ops IH]; intros st s H; [exact H|].
+  cbn [q_exec l_exec fold_left]. apply IH. apply step_L. exact H.
+Qed.
+
+Lemma run_refines ops : forall st s, L st s ->
+  map (fun rq => (out_abs (fst rq), q_abs (snd rq))) (q_run st ops) = f_run (q_abs (fst st)) ops.
+Proof.
+  induction ops as [|o ops IH]; intros st s H; [reflexivity|].
+  cbn [q_run f_run]. pose proof (step_refines st o (L_tail _ _ H)) as [Hq Ho].
+  pose proof (step_L st s o H) as HL.
+  destruct (q_step st o) as [st' r]. destruct (f_step (q_abs (fst st)) o) as [f' r'].
+  cbn [fst snd] in *. cbn [map fst snd]. rewrite Ho, Hq, (IH _ _ HL), Hq. reflexivity.
+Qed.
+
+Lemma ids_are_positions ops :
+  let st := q_exec q_init ops in let s := l_exec l_init ops in
+  fst st = numbered (Z.of_nat (snd s) + 1) (skipn (snd s) (fst s)) /\
+  snd st = Z.of_nat (length (fst s)) /\ (snd s <= length (fst s))%nat.
+Proof.
+  cbn zeta. pose proof (exec_L ops _ _ init_L) as H.
+  split; [exact (L_items _ _ H)|]. split; [exact (L_last _ _ H)|exact (L_le _ _ H)].
+Qed.
+
+(* without DropLast the log is the list of pushed payloads *)
+Definition pushed (ops : list qop) : list str :=
+  flat_map (fun o => match o with QPush x => [x] | _ => [] end) ops.
+Definition no_drop (o : qop) : Prop := o <> QDropLast.
+
+Lemma log_without_drops ops : forall s, Forall no_drop ops -> fst (l_exec s ops) = fst s ++ pushed ops.
+Proof.
+  induction ops as [|o ops IH]; intros [lg p] H; cbn [l_exec fold_left pushed flat_map fst].
+  - rewrite app_nil_r. reflexivity.
+  - inversion H as [|? ? Ho H']; subst. fold (l_exec (l_step (lg, p) o) ops). rewrite (IH _ H').
+    fold (pushed ops).
+    destruct o; cbn [l_step fst app]; try reflexivity; [rewrite <- app_assoc; reflexivity|contradiction].
+Qed.
+
+(* the reference FIFO is the part of the log that has not left at the head *)
+Lemma f_step_log lg p o : (p <= length lg)%nat ->
+  fst (f_step (skipn p lg) o) = skipn (snd (l_step (lg, p) o)) (fst (l_step (lg, p) o)) /\
+  (snd (l_step (lg, p) o) <= length (fst (l_step (lg, p) o)))%nat.
+Proof.
+  intros Hle. destruct o as [x| |k| |k| |]; cbn [f_step l_step fst snd]; try (split; [reflexivity|exact Hle]).
+  - rewrite skipn_app_le' by exact Hle. split; [reflexivity|rewrite app_length; lia].
+  - destruct (p <? length lg)%nat eqn:C; cbn [fst snd].
+    + apply Nat.ltb_lt in C. destruct (skipn p lg) as [|x r] eqn:E.
+      { pose proof (skipn_length p lg) as Hk. rewrite E in Hk. cbn in Hk. lia. }
+      split; [|lia]. change (S p) with (1 + p)%nat. rewrite Nat.add_comm, <- skipn_skipn_add, E. reflexivity.
+    + apply Nat.ltb_ge in C. assert (p = length lg) by lia. subst p. rewrite skipn_all. split; [reflexivity|lia].
+  - pose proof (f_take_length (skipn p lg) k) as Hk. rewrite skipn_length in Hk.
+    rewrite skipn_skipn_add. split; [reflexivity|lia].
+  - destruct (p <? length lg)%nat eqn:C; cbn [fst snd].
+    + apply Nat.ltb_lt in C. split; [symmetry; apply skipn_removelast; exact C|].
+      destruct lg as [|y lg] using rev_ind; [cbn in C; lia|]. rewrite removelast_last. rewrite app_length in C. cbn in C. lia.
+    + apply Nat.ltb_ge in C. assert (p = length lg) by lia. subst p. rewrite skipn_all. split; [reflexivity|lia].
+Qed.
+
+Lemma n_pushes_cons o ops :
+  n_pushes (o :: ops) = ((match o with QPush _ => 1 | _ => 0 end) + n_pushes ops)%nat.
+Proof. unfold n_pushes. cbn [filter]. destruct o; reflexivity. Qed.
+
+Lemma log_length ops : forall lg p, (p <= length lg)%nat ->
+  (length (fst (l_exec (lg, p) ops)) + n_taken_back (skipn p lg) ops = length lg + n_pushes ops)%nat.
+Proof.
+  induction ops as [|o ops IH]; intros lg p Hle; [cbn; lia|].
+  cbn [l_exec fold_left n_taken_back]. fold (l_exec (l_step (lg, p) o) ops). rewrite n_pushes_cons.
+  pose proof (f_step_log lg p o Hle) as [Hf Hle']. rewrite Hf.
+  destruct (l_step (lg, p) o) as [lg' p'] eqn:E. cbn [fst snd] in *.
+  specialize (IH lg' p' Hle').
+  assert (Hlen : (length lg' + (match o, skipn p lg with QDropLast, _ :: _ => 1 | _, _ => 0 end)
+                 = length lg + (match o with QPush _ => 1 | _ => 0 end))%nat).
+  { clear IH Hf Hle'. destruct o; cbn [l_step] in E.
+    - injection E as <- <-. rewrite app_length. cbn. destruct (skipn p lg); lia.
+    - injection E as <- <-. destruct (skipn p lg); lia.
+    - injection E as <- <-. destruct (skipn p lg); lia.
+    - injection E as <- <-. destruct (skipn p lg); lia.
+    - injection E as <- <-. destruct (skipn p lg); lia.
+    - injection E as <- <-. destruct (skipn p lg); lia.
+    - destruct (p <? length lg)%nat eqn:C; injection E as <- <-.
+      + apply Nat.ltb_lt in C. destruct (skipn p lg) eqn:E2.
+        { pose proof (skipn_length p lg) as Hk. rewrite E2 in Hk. cbn in Hk. lia. }
+        destruct lg as [|y lg] using rev_ind; [cbn in C; lia|]. rewrite removelast_last, app_length. cbn. lia.
+      + apply Nat.ltb_ge in C. assert (p = length lg) by lia. subst p.
+        rewrite skipn_all. lia. }
+  lia.
+Qed.
+
+(* lastId = pushes - entries taken back *)
+Lemma ids_count ops :
+  snd (q_exec q_init ops) = Z.of_nat (n_pushes ops) - Z.of_nat (n_taken_back [] ops).
+Proof.
+  pose proof (exec_L ops _ _ init_L) as H. rewrite (L_last _ _ H).
+  pose proof (log_length ops [] 0%nat (Nat.le_refl _)) as Hc. cbn [skipn length] in Hc.
+  unfold l_init. lia.
+Qed.
+
+Lemma run_sorted_init ops : Forall (fun rq => ids_sorted (snd rq)) (q_run q_init ops).
+Proof. apply run_sorted. apply init_inv. Qed.
